@@ -200,7 +200,7 @@ class TypedNode(Node):
         pc_len = len(pc)
         own_idx = pc.index(self)
 
-        if own_idx < pc_len - 2:
+        if own_idx < pc_len - 1:
             for idx in range(own_idx + 1, pc_len):
                 n = pc[idx]
                 if any_kind or n._kind == self._kind:
